@@ -240,6 +240,10 @@ class Check:
             return
         if any(v["key"] == key for v in self.violations):
             return
+        if len(self.violations) >= 6:
+            # enough replays; keep counting
+            self.more_violations = getattr(self, "more_violations", 0) + 1
+            return
         path = os.path.join(REPLAYS, "%s-%s.json" % (self.prop, re.sub(r"[^A-Za-z0-9_.-]", "_", key)[:80]))
         replay = dict(replay)
         replay.update(property=self.prop, key=key, what=what, seed=self.seed, tier=self.tier,
@@ -298,6 +302,8 @@ class Check:
         for v in self.violations:
             print("VIOLATION property=%s replay=%s%s" % (self.prop, v["replay"], " no-failing-input-found" if v["no_input"] else ""))
             print("  " + v["what"])
+        if getattr(self, "more_violations", 0):
+            print("(%d further violating inputs not written out)" % self.more_violations)
         print("%s %s: obligations %d/%d, correspondence evaluations %d, violations %d, %.1fs" % (
             self.prop, self.tier, self.discharged, self.obligations, evals, len(self.violations), wall))
         return 1 if self.violations else 0
